@@ -77,10 +77,12 @@ struct Exec {
     ticked: bool,
     /// a back-off was polled for the first time suspiciously late: timing of this run is not the script's
     disturbed: bool,
+    /// the stream has ended
+    dead: bool,
 }
 
 impl Exec {
-    fn woken(&self) -> bool { self.run_flag || self.cw.wakes.load(SeqCst) != self.consumed }
+    fn woken(&self) -> bool { !self.dead && (self.run_flag || self.cw.wakes.load(SeqCst) != self.consumed) }
     /// clones of the waker held by somebody else (we hold the Arc and the Waker made from it)
     fn live(&self) -> usize { Arc::strong_count(&self.cw) - 2 }
 
@@ -129,7 +131,9 @@ impl Exec {
                 self.run_flag = true;
                 Some(id)
             }
-            Poll::Ready(Err(err)) => panic!("machinery: listener stream yielded {}", err),
+            // the stream ended or yielded an error: rpki's Server::run returns, the listener is gone.
+            // Reported as a bogus hand-out so that the oracle rejects the run.
+            Poll::Ready(Err(_)) => { self.out.push(777_777); self.dead = true; Some(777_777) }
         };
         let backoff = self.lst.has_backoff();
         if backoff && !had_backoff { self.backoff_since = Some(Instant::now()); self.ticked = false; }
@@ -145,7 +149,7 @@ impl Exec {
         self.clients.push(client);
         // a waker registered with the socket is woken by the arrival: wait for it, so that what the next poll
         // sees does not depend on when the I/O driver runs
-        if !self.woken() && self.live() > 0 && !self.lst.has_backoff() {
+        if !self.dead && !self.woken() && self.live() > 0 && !self.lst.has_backoff() {
             self.wait_woken("the arrival of a connection to wake the registered waker").await;
         }
     }
@@ -161,7 +165,7 @@ impl Exec {
     async fn finish(&mut self) {
         loop {
             if self.woken() { self.poll(false); }
-            else if self.lst.has_backoff() && self.live() > 0 {
+            else if !self.dead && self.lst.has_backoff() && self.live() > 0 {
                 self.wait_woken("the back-off timer to fire").await;
                 self.ticked = true;
             }
@@ -189,7 +193,7 @@ fn play(keepalive: Option<u64>, script: &[String]) -> Outcome {
         let waker = Waker::from(cw.clone());
         let mut ex = Exec {
             lst, metrics, addr, cw, waker, consumed: 0, run_flag: true, polls: Vec::new(), conns: Vec::new(),
-            out: Vec::new(), clients: Vec::new(), backoff_since: None, ticked: false, disturbed: false,
+            out: Vec::new(), clients: Vec::new(), backoff_since: None, ticked: false, disturbed: false, dead: false,
         };
         // the first poll of the task (Server::run starts by asking for the first connection): nothing has
         // connected, the waker goes to the socket. Not part of the script; the model starts after it.
